@@ -59,6 +59,7 @@ def judge_case(spec, do_collapse_pair=False, do_headers=False, do_table=False):
             res['missing'] = [p for p in res['missing'] if p in o2['must']]
             res['spurious'] = [p for p in res['spurious'] if p not in o3['may']]
         res['missing_kf'], res['spurious_kf'] = {}, {}
+        hdr_of = {s: h for h, s in fa}
         if res['missing']:
             rest = []
             for p in res['missing']:
@@ -71,7 +72,7 @@ def judge_case(spec, do_collapse_pair=False, do_headers=False, do_table=False):
         if res['spurious']:
             rest = []
             for p in res['spurious']:
-                m = mech_spurious(o, p)
+                m = mech_spurious(o, p, hdr_of.get(p))
                 if m:
                     res['spurious_kf'].setdefault(m, []).append(p)
                 else:
@@ -242,6 +243,7 @@ def locate(bb, ids, lim, flags, pep, added, dropped, orig_ids):
                 break
         if pos is None:
             continue
+        info['_pos'], info['_pmap'] = pos, pmap
         for e in h:
             for i in e.ids & added:
                 # position of the edit in haplotype coordinates
@@ -253,16 +255,32 @@ def locate(bb, ids, lim, flags, pep, added, dropped, orig_ids):
                 hs, he = e.start + d, e.start + d + len(e.alt)
                 info['added'][i] = 'upstream' if he <= pos[0] else ('downstream' if hs >= pos[1] else 'inside')
         break
+    def near_named(e, named_ids, skip):
+        for e2 in bb.edits:
+            if e2 is e or not (e2.ids <= named_ids) or (e2.ids & skip):
+                continue
+            if e2.start < e.end + 3 and e.start < e2.end + 3:
+                return True
+        return False
     for i in dropped:
         es = [e for e in bb.edits if i in e.ids]
         rel = 'other'
-        for e in es:
-            for e2 in bb.edits:
-                if e2 is e or not (e2.ids <= orig_ids) or i in e2.ids:
-                    continue
-                if e2.start < e.end + 3 and e.start < e2.end + 3:
-                    rel = 'overlapping-or-adjacent-partner'
+        if any(near_named(e, orig_ids, {i}) for e in es):
+            rel = 'overlapping-or-adjacent-partner'
+        elif info.get('_pos') is not None and es:
+            q = info['_pmap'](es[0].start)
+            if q is None:
+                q = info['_pmap'](max(0, es[0].start - 1))
+            if q is not None:
+                rel = 'upstream' if q < info['_pos'][0] else ('downstream' if q >= info['_pos'][1] else 'inside')
         info['dropped'][i] = rel
+    # an added record that sits within 2 nt of a named record (same codon neighbourhood)
+    for i in list(info['added']):
+        es = [e for e in bb.edits if i in e.ids]
+        if info['added'][i] != 'upstream' and any(near_named(e, orig_ids, {i}) for e in es):
+            info['added'][i] = 'overlapping-or-adjacent-partner'
+    info.pop('_pos', None)
+    info.pop('_pmap', None)
     return info
 
 
@@ -330,12 +348,15 @@ def mech_missing(o, p):
         return 'KF-NESTED'
 
     def start_anchor(bb, h):
-        si = _start_index(bb)
         for a in h:
-            if a.cls == 'I' and a.start == si - 1 and bb.kind == 'main':
+            if a.tag == 'start-anchor':
+                if bb.kind != 'main':
+                    return True        # the in-place shifted record is then filtered / misplaced in the other graph
                 for b in h:
                     if b is not a and a.end <= b.cstart <= a.end + 1:
                         return True
+                if any(a.end <= c <= a.end + 1 for c in list(bb.sec) + list(bb.sec_may)):
+                    return True        # the shifted record runs into the following Sec codon
         return False
     if all(start_anchor(bb, h) for bb, h in W):
         return 'KF-START-ANCHOR'
@@ -347,11 +368,19 @@ def mech_missing(o, p):
     return None
 
 
-def mech_spurious(o, p):
+def mech_spurious(o, p, header=None):
     """Mechanism id explaining a peptide outside MAY, or None. Content attribution: p is a substring of
     the translation (any frame) of a haplotype that carries a nested AS edit -> truncation at an
     internal node boundary."""
     from harness.model.seqmodel import translate
+    if header:
+        named = set()
+        for ent in header.split(' '):
+            named.update(ent.split('|'))
+        for bb, ev in o['per']:
+            for e in bb.edits:
+                if e.tag == 'nested-donor' and (e.ids & named):
+                    return 'KF-NESTED'
     for bb, ev in o['per']:
         nested = [e for e in bb.edits if e.tag == 'nested-donor']
         if not nested:
